@@ -1375,7 +1375,13 @@ func (cs *ConsensusState) defaultSetProposal(proposal *types.Proposal) error {
 	}
 
 	cs.Proposal = proposal
-	cs.ProposalBlockParts = types.NewPartSetFromHeader(proposal.BlockPartsHeader)
+	// Do not replace a part set that is already being filled: after a polka or
+	// +2/3 precommits for a block we do not have, enterPrecommit/enterCommit set
+	// ProposalBlockParts up for that block (and ProposalBlock once complete); a
+	// proposal delivered after that must not reset it.
+	if cs.ProposalBlockParts == nil {
+		cs.ProposalBlockParts = types.NewPartSetFromHeader(proposal.BlockPartsHeader)
+	}
 	return nil
 }
 
